@@ -74,10 +74,14 @@ Definition spec_prefixes (cb : string) (streams : list string) : list string := 
 
 (* ---------- _shorten_key and the sensor table ---------- *)
 Definition drop (n : nat) (s : string) : string := substring n (String.length s - n) s.
+Definition take (n : nat) (s : string) : string := substring 0 n s.
 
+(* _shorten_key: `for prefix in telstate.prefixes: if key.startswith(prefix): return key[len(prefix):]` then
+   `return ''` (GENERATED: the direction of the scan sk_reversed, the fall-through value sk_nomatch) *)
+Definition scan_prefixes (ps : list string) : list string := if sk_reversed then rev ps else ps.
 Fixpoint shorten_key (prefixes : list string) (key : string) : string :=
   match prefixes with
-  | [] => ""
+  | [] => sk_nomatch
   | p :: ps => if String.prefix p key then drop (String.length p) key else shorten_key ps key
   end.
 
@@ -103,35 +107,59 @@ Definition sensor_step_unranked (prefixes : list string) (t : table) (e : entry)
 Definition sensor_table_unranked (prefixes : list string) (st : store) : table :=
   fold_left (sensor_step_unranked prefixes) st [].
 
-(* AFTER the fix: each entry remembers the rank (index of the owning prefix); a key only replaces an entry of
-   the same name when its namespace is at least as specific:
-     rank = prefixes.index(key[:len(key) - len(name)]);  if rank <= ranks.get(name, rank): ... *)
+(* AFTER the fix, statement by statement (TelstateDataSource.__init__):
+     for key in telstate.keys():
+         if telstate.key_type(key) == KeyType.MUTABLE:             (GENERATED sn_key_type, sn_key_type_eq)
+             sensor_name = _shorten_key(telstate, key)
+             if sensor_name:
+                 rank = telstate.prefixes.index(key[:len(key) - len(sensor_name)])
+                 if rank <= namespace_ranks.get(sensor_name, rank):  (GENERATED sn_replaces, sn_default_rank)
+                     namespace_ranks[sensor_name] = rank;  sensors[sensor_name] = getter(key) *)
 Definition rtable := list (string * (nat * string)).        (* sensor name -> (rank, full key) *)
 Definition rtbl_set (t : rtable) (n : string) (v : nat * string) : rtable :=
   (n, v) :: filter (fun p => negb (String.eqb (fst p) n)) t.
 Definition rtbl_get (t : rtable) (n : string) : option (nat * string) :=
   option_map snd (find (fun p => String.eqb (fst p) n) t).
-Definition better (acc : option (nat * string)) (r : nat) (k : string) : option (nat * string) :=
-  match acc with
-  | Some (r0, k0) => if Nat.leb r r0 then Some (r, k) else Some (r0, k0)
-  | None => Some (r, k)
+Definition type_holds (e : entry) : bool :=
+  if String.eqb sn_key_type "MUTABLE" then e_mut e
+  else if String.eqb sn_key_type "IMMUTABLE" then negb (e_mut e) else false.
+(* whose type is asked: `root.key_type(key)` = the entry itself; `telstate.key_type(key)` on the view = the entry
+   found by resolving the FULL key through the prefixes of the view once more (none if the view is exclusive) -
+   the pinned code before the repair of F-C18x-1 (GENERATED sn_type_through_view) *)
+Fixpoint lookup_entry (st : store) (prefixes : list string) (k : string) : option entry :=
+  match prefixes with
+  | [] => None
+  | p :: ps => match find_key st (p ++ k) with Some e => Some e | None => lookup_entry st ps k end
   end.
-Definition sensor_step (prefixes : list string) (t : rtable) (e : entry) : rtable :=
-  if e_mut e then
-    let n := shorten_key prefixes (e_key e) in
+Definition is_sensor_key_gen (through_view : bool) (prefixes : list string) (all : store) (e : entry) : bool :=
+  match (if through_view then lookup_entry all prefixes (e_key e) else Some e) with
+  | Some x => Bool.eqb (type_holds x) sn_key_type_eq
+  | None => false
+  end.
+(* prefixes.index(key[:len(key) - len(sensor_name)]);  None = the ValueError of list.index *)
+Definition rank_in_code (ps : list string) (key name : string) : option nat :=
+  index_of (take (String.length key - String.length name) key) ps.
+Definition sensor_step_gen (through_view : bool) (prefixes : list string) (all : store) (t : rtable) (e : entry) : rtable :=
+  if is_sensor_key_gen through_view prefixes all e then
+    let n := shorten_key (scan_prefixes prefixes) (e_key e) in
     if String.eqb n "" then t else
-    match key_rank prefixes (e_key e) with
-    | Some r => match better (rtbl_get t n) r (e_key e) with
-                | Some v => rtbl_set t n v
-                | None => t
-                end
+    match rank_in_code prefixes (e_key e) n with
+    | Some r =>
+        let old := match rtbl_get t n with Some (r0, _) => r0 | None => sn_default_rank r end in
+        if sn_replaces r old then rtbl_set t n (r, e_key e) else t
     | None => t
     end
   else t.
+Definition sensor_step := sensor_step_gen sn_type_through_view.
 Definition sensor_table (prefixes : list string) (st : store) : rtable :=
-  fold_left (sensor_step prefixes) st [].
+  fold_left (sensor_step prefixes st) st [].
 Definition sensor_key (prefixes : list string) (st : store) (n : string) : option string :=
   option_map snd (rtbl_get (sensor_table prefixes st) n).
+(* before the repair of F-C18x-1 (kept for the refutation) *)
+Definition sensor_key_viewtyped (prefixes : list string) (st : store) (n : string) : option string :=
+  option_map snd (rtbl_get (fold_left (sensor_step_gen true prefixes st) st []) n).
+(* the names of the sensors of the data set *)
+Definition sensor_names (prefixes : list string) (st : store) : list string := map fst (sensor_table prefixes st).
 
 (* SPEC: the sensor [name] is read from the most specific namespace that defines it *)
 Fixpoint spec_sensor (st : store) (prefixes : list string) (name : string) : option string :=
@@ -154,46 +182,82 @@ Definition resolve_id (kw url file : option string) : option string :=
   | None => file
   end.
 
-Inductive res (A : Type) := Ok (a : A) | Err (code : Z).
-Arguments Ok {A} a. Arguments Err {A} code.
-
 (* stream_type check: view.get(l0_type_key, l0_type_default) must be l0_expected_type ('sdp.vis') *)
 Definition check_stream_type (ty : option string) : bool :=
   String.eqb (match ty with Some t => t | None => l0_type_default end) l0_expected_type.
 
 (* ---------- flag stream upgrade ---------- *)
-(* a candidate archived stream: its stream_type, src_streams, flags shape (dumps :: rest) and an id *)
-Record fstream := mkF { f_id : Z; f_type : option string; f_src : list string; f_dumps : Z; f_rest : list Z }.
-Record cinfo := mkC { c_id : Z; c_dumps : Z; c_rest : list Z }.
+(* a chunk info: the id of the value, dumps and channel/baseline shape of its flags array, and the id of the value
+   that names where its chunks live (itself when it has a 'prefix', else the chunk name found by _ensure_prefix_is_set) *)
+Record cinfo := mkC { c_id : Z; c_dumps : Z; c_rest : list Z; c_from : Z }.
+(* a candidate archived stream as _upgrade_flags sees it through the candidate's view: its stream_type (None =
+   absent or not a string), its src_streams (None = KeyError), its chunk info (None = KeyError) *)
+Record fstream := mkF { f_type : option string; f_src : option (list string); f_info : option cinfo }.
 
 Definition zs_eqb (a b : list Z) : bool :=
   (Nat.eqb (List.length a) (List.length b) && forallb (fun p => Z.eqb (fst p) (snd p)) (combine a b))%bool.
 
+Definition type_is_flags (f : fstream) : bool :=
+  match f_type f with Some t => String.eqb t fl_type | None => false end.
 Definition is_flag_source (stream : string) (f : fstream) : bool :=
-  (match f_type f with Some t => String.eqb t fl_type | None => false end
-   && mem_string stream (f_src f))%bool.
+  (type_is_flags f && match f_src f with Some l => mem_string stream l | None => false end)%bool.
 
-(* _upgrade_flags: for s in archived: if type/sources match: shape[1:] check then replace *)
+(* _upgrade_flags: for s in archived:
+     if telstate_cs.get(type) != 'sdp.flags' or stream_name not in telstate_cs[src]: continue   (src only read when the
+                                                                             type matches; KeyError = Err 2)
+     flags_info = telstate_cs[chunk_info]                                    (KeyError = Err 2)
+     chunk_info = _upgrade_chunk_info(chunk_info, flags_info)                (shape[1:] differs = ValueError = Err 1) *)
+Inductive res (A : Type) := Ok (a : A) | Err (code : Z).
+Arguments Ok {A} a. Arguments Err {A} code.
 Fixpoint upgrade_flags (stream : string) (cur : cinfo) (archived : list fstream) : res cinfo :=
   match archived with
   | [] => Ok cur
   | f :: fs =>
-      if is_flag_source stream f then
-        if zs_eqb (f_rest f) (c_rest cur) then upgrade_flags stream (mkC (f_id f) (f_dumps f) (f_rest f)) fs
-        else Err 1
+      if type_is_flags f then
+        match f_src f with
+        | None => Err 2
+        | Some src =>
+            if mem_string stream src then
+              match f_info f with
+              | None => Err 2
+              | Some ci => if zs_eqb (c_rest ci) (c_rest cur) then upgrade_flags stream ci fs else Err 1
+              end
+            else upgrade_flags stream cur fs
+        end
       else upgrade_flags stream cur fs
   end.
 
-(* SPEC: the LAST matching archived flags stream replaces the stream's own flags; any matching stream with an
-   incompatible channel/baseline shape is an error *)
+(* SPEC.  What one archived stream means for the opened stream whose flags have channel/baseline shape [rest]:
+   None = it is not a flags stream of the opened stream (ignored); Some (Ok ci) = it replaces the flags;
+   Some (Err 1) = incompatible channel/baseline shape; Some (Err 2) = a flags stream that lacks its sources or its
+   chunk info.  The FIRST defective stream (in archived order) is the error reported; otherwise the LAST
+   replacing stream wins; without any the stream keeps its own flags. *)
+Definition candidate_status (stream : string) (rest : list Z) (f : fstream) : option (res cinfo) :=
+  match f_type f with
+  | Some t =>
+      if String.eqb t fl_type then
+        match f_src f with
+        | None => Some (Err 2)
+        | Some src =>
+            if mem_string stream src then
+              match f_info f with
+              | None => Some (Err 2)
+              | Some ci => if zs_eqb (c_rest ci) rest then Some (Ok ci) else Some (Err 1)
+              end
+            else None
+        end
+      else None
+  | None => None
+  end.
+Definition statuses (stream : string) (rest : list Z) (archived : list fstream) : list (res cinfo) :=
+  flat_map (fun f => match candidate_status stream rest f with Some r => [r] | None => [] end) archived.
+Definition is_err {A} (r : res A) : bool := match r with Err _ => true | Ok _ => false end.
 Definition spec_upgrade (stream : string) (cur : cinfo) (archived : list fstream) : res cinfo :=
-  let ms := filter (is_flag_source stream) archived in
-  if forallb (fun f => zs_eqb (f_rest f) (c_rest cur)) ms then
-    match rev ms with
-    | [] => Ok cur
-    | f :: _ => Ok (mkC (f_id f) (f_dumps f) (f_rest f))
-    end
-  else Err 1.
+  let ss := statuses stream (c_rest cur) archived in
+  match find is_err ss with
+  | Some r => r
+  | None => match rev ss with r :: _ => r | [] => Ok cur end
+  end.
 
 (* ---------- _align_chunk_info ---------- *)
 (* per array: time chunks (list of chunk lengths); phantom chunks of one dump are appended up to max *)
@@ -208,7 +272,7 @@ Definition align_chunk_info (arrays : list (list Z)) : list (list Z) :=
 (* The value of an immutable key is identified by its index in a value table; only the shapes the code looks at
    are distinguished: a string, a list of strings, a chunk_info (dumps and channel/baseline shape of its 'flags'
    array; all arrays of one stream have the same number of dumps), anything else. *)
-Inductive aval := AStr (s : string) | AStrs (l : list string) | AInfo (dumps : Z) (rest : list Z) | AOther.
+Inductive aval := AStr (s : string) | AStrs (l : list string) | AInfo (dumps : Z) (rest : list Z) (has_prefix : bool) | AOther.
 Definition vtable := list aval.
 
 Definition aget (st : store) (vals : vtable) (ps : list string) (k : string) : option (Z * aval) :=
@@ -224,18 +288,35 @@ Definition chain_of (st : store) (vals : vtable) (stream : string) : option (lis
   chain st (names_of_vals vals) (S (List.length st)) stream.
 
 (* _upgrade_flags: telstate_cs = view_capture_stream(telstate, cb, s) stacked on the view of the opened stream
-   [base]; stream_type, src_streams and chunk_info of the candidate are read through that view
-   (keys generated: fl_type_key fl_src_key fl_chunk_info_key) *)
+   [base]; stream_type, src_streams and chunk_info of the candidate are read through that view, i.e. through the
+   candidate's own inherit chain and then the namespaces of the opened stream
+   (keys generated: fl_type_key fl_src_key fl_chunk_info_key).  None = outside the model: cyclic inherit chain,
+   src_streams / chunk_info present with a value of another shape. *)
+(* telstate[key] followed by _ensure_prefix_is_set(info, telstate) through the view [ps]: an info without 'prefix' gets
+   telstate[ci_prefix_key] ('chunk_name', GENERATED) looked up through the SAME view.
+   None = a value of another shape (outside the model); Some None = KeyError (the info, or the chunk name it needs) *)
+Definition info_of (st : store) (vals : vtable) (ps : list string) (key : string) : option (option cinfo) :=
+  match aget st vals ps key with
+  | None => Some None
+  | Some (id, AInfo d rest hp) =>
+      if hp then Some (Some (mkC id d rest id))
+      else match aget st vals ps ci_prefix_key with
+           | Some (nid, _) => Some (Some (mkC id d rest nid))
+           | None => Some None
+           end
+  | Some _ => None
+  end.
 Definition fstream_of_with (prefixes_on : list string -> string -> list string -> list string)
     (st : store) (vals : vtable) (base : list string) (cb s : string) : option fstream :=
   match chain_of st vals s with
   | None => None
   | Some streams =>
       let ps := prefixes_on base cb streams in
-      match aget st vals ps fl_chunk_info_key with
-      | Some (id, AInfo d rest) =>
-          Some (mkF id (astr (aget st vals ps fl_type_key)) (astrs (aget st vals ps fl_src_key)) d rest)
-      | _ => None
+      let ty := astr (aget st vals ps fl_type_key) in
+      match aget st vals ps fl_src_key, info_of st vals ps fl_chunk_info_key with
+      | Some (_, AStrs l), Some i => Some (mkF ty (Some l) i)
+      | None, Some i => Some (mkF ty None i)
+      | _, _ => None
       end
   end.
 Definition fstream_of := fstream_of_with view_capture_stream_on.
@@ -251,7 +332,7 @@ Fixpoint all_some {A} (l : list (option A)) : option (list A) :=
 Record omode := mkMode { m_store : bool; m_upgrade : option bool; m_ts : option Z }.
 (* what comes out: number of timestamps; if there is data: its number of dumps and the id of the chunk info its
    flags come from *)
-Record opened := mkOpened { o_ts : Z; o_data : option (Z * Z) }.
+Record opened := mkOpened { o_ts : Z; o_data : option (Z * Z * Z) }.
 Definition upgrade_on (m : omode) : bool := match m_upgrade m with Some b => b | None => ds_upgrade_default end.
 Definition has_ts (m : omode) : bool := match m_ts m with Some _ => true | None => false end.
 
@@ -267,7 +348,7 @@ Definition open_source (m : omode) (stream : string) (cur : cinfo) (archived : l
         let aligned := align_chunk_info [[c_dumps cur]; [c_dumps c]] in
         let n := dumps_of (nth 0 aligned []) in
         Ok (mkOpened (match m_ts m with Some k => k | None => n end)
-                     (if m_store m then Some (dumps_of (nth 1 aligned []), c_id c) else None))
+                     (if m_store m then Some (dumps_of (nth 1 aligned []), c_id c, c_from c) else None))
     end
   else if m_store m then Err 4
   else match m_ts m with Some k => Ok (mkOpened k None) | None => Err 4 end.
@@ -284,7 +365,7 @@ Definition spec_open (m : omode) (stream : string) (cur : cinfo) (archived : lis
       | Ok c =>
           let n := Z.max (c_dumps cur) (c_dumps c) in
           Ok (mkOpened (match m_ts m with Some k => k | None => n end)
-                       (if m_store m then Some (n, c_id c) else None))
+                       (if m_store m then Some (n, c_id c, c_from c) else None))
       end
   end.
 
@@ -300,19 +381,19 @@ Definition open_telstate_with (prefixes_on : list string -> string -> list strin
       let ps := prefixes_on [""] cb streams in
       if negb (check_stream_type (astr (aget st vals ps l0_type_key))) then Err 3
       else if ds_reads_chunk_info (m_store m) (has_ts m) then
-        match aget st vals ps ds_chunk_info_key with
-        | Some (id, AInfo d rest) =>
+        match info_of st vals ps ds_chunk_info_key with
+        | Some (Some cur) =>
             let fs := if upgrade_on m then
                         all_some (map (fstream_of_with prefixes_on st vals ps cb)
                                       (astrs (aget st vals ps fl_archived_key)))
                       else Some [] in
             match fs with
-            | Some fs => opener m stream (mkC id d rest) fs
+            | Some fs => opener m stream cur fs
             | None => Err 9
             end
         | _ => Err 2
         end
-      else opener m stream (mkC 0 0 []) []
+      else opener m stream (mkC 0 0 [] 0) []
   end.
 Definition open_telstate := open_telstate_with view_capture_stream_on open_source.
 Definition spec_open_telstate := open_telstate_with spec_prefixes_on spec_open.
@@ -329,6 +410,78 @@ Definition open_url_with (ot : omode -> store -> vtable -> string -> string -> r
 Definition open_url := open_url_with open_telstate.
 Definition spec_open_url := open_url_with spec_open_telstate.
 
+(* ---------- which failures of a source are "not found" ---------- *)
+(* outcome of katsdptelstate's load_from_file, by the class a handler would name (OSError: missing file, directory,
+   no permission; RdbParseError: not a valid RDB dump) *)
+Inductive load := Loaded | Raises (exn : string).
+(* error codes: 1/3 ValueError, 2 KeyError, 4 UnboundLocalError, 5 DataSourceNotFound, 6 any other exception,
+   8 not a v4 source (katdal.open hands the name to the HDF5 loaders), 9 outside the model *)
+Definition exn_code (x : string) : Z :=
+  if String.eqb x "DataSourceNotFound" then 5 else if String.eqb x "ValueError" then 3
+  else if String.eqb x "KeyError" then 2 else 6.
+(* from_url: scheme dispatch (GENERATED src_file_scheme, src_schemes), the handler around load_from_file
+   (src_load_caught -> src_load_raises), the final else (src_unknown_raises) *)
+Definition load_source (scheme : string) (l : load) : res unit :=
+  if String.eqb scheme src_file_scheme then
+    match l with
+    | Loaded => Ok tt
+    | Raises x => Err (exn_code (if mem_string x src_load_caught then src_load_raises else x))
+    end
+  else if mem_string scheme src_schemes then Err 9
+  else Err (exn_code src_unknown_raises).
+(* open_data_source: `try: return from_url(...) except <ods_catches>: ... raise <ods_raises>` *)
+Definition ods {A} (r : res A) : res A :=
+  match r with
+  | Err e => if existsb (fun x => Z.eqb (exn_code x) e) ods_catches then Err (exn_code ods_raises) else Err e
+  | Ok a => Ok a
+  end.
+(* the public entry points: from_url, open_data_source, katdal.open (name ends in '.rdb'?, has a scheme?) *)
+Inductive how := HFromUrl | HOds | HOpen (ends_rdb has_scheme : bool).
+Definition open_how_with (ou : omode -> store -> vtable -> option string -> option string -> option string -> option string
+                               -> res (string * string * opened))
+    (h : how) (scheme : string) (l : load) (m : omode) (st : store) (vals : vtable)
+    (kw_cb url_cb kw_sn url_sn : option string) : res (string * string * opened) :=
+  let fu := match load_source scheme l with
+            | Err e => Err e
+            | Ok _ => ou m st vals kw_cb url_cb kw_sn url_sn
+            end in
+  match h with
+  | HFromUrl => fu
+  | HOds => ods fu
+  | HOpen e s => if open_is_v4 e s then ods fu else Err 8
+  end.
+Definition open_how := open_how_with open_url.
+(* SPEC: an unreadable file and an unknown kind of source are "not found" whichever entry point is used and
+   whatever else is asked for; a readable one is opened as the property says (its own errors keep their class) *)
+Definition spec_open_how (h : how) (scheme : string) (l : load) (m : omode) (st : store) (vals : vtable)
+    (kw_cb url_cb kw_sn url_sn : option string) : res (string * string * opened) :=
+  match h with
+  | HOpen false false => Err 8
+  | _ =>
+    if String.eqb scheme "file" then
+      match l with
+      | Loaded => spec_open_url m st vals kw_cb url_cb kw_sn url_sn
+      | Raises x => if (String.eqb x "OSError" || String.eqb x "RdbParseError")%bool then Err 5 else Err (exn_code x)
+      end
+    else if mem_string scheme ["redis"; "http"; "https"] then Err 9
+    else Err 5
+  end.
+
+(* ---------- visdatav4._relative_view: the attributes of another stream seen from every namespace of the view ------- *)
+(*   prefix = telstate.prefixes[-1];  view = telstate.view(prefix + name, exclusive=True)
+     for prefix in reversed(telstate.prefixes[:-1]): view = view.view(prefix + name)
+   (GENERATED rv_exclusive, rv_reversed).  None = IndexError (a telstate always has at least one prefix). *)
+Definition relative_view (ps : list string) (name : string) : option (list string) :=
+  match rev ps with
+  | [] => None
+  | last :: before_rev =>
+      let base := if rv_exclusive then [] else ps in
+      let order := if rv_reversed then before_rev else rev before_rev in
+      Some (fold_left (fun v p => view v (p ++ name)) order (view base (last ++ name)))
+  end.
+Definition spec_relative_view (ps : list string) (name : string) : list string :=
+  map (fun p => (p ++ name) ++ sep) ps.
+
 (* ---------- wire ---------- *)
 Definition to_entry (x : sx) : entry :=
   match x with L [k; m; I v] => mkEntry (to_string k) (to_bool m) v | _ => mkEntry "" false 0 end.
@@ -339,24 +492,29 @@ Definition names_of (l : list string) (z : Z) : option string := nth_error l (Z.
 Definition of_optZ' (o : option Z) : sx := match o with Some z => L [I z] | None => L [] end.
 Definition to_fstream (x : sx) : fstream :=
   match x with
-  | L [I i; ty; src; I d; rest] => mkF i (to_optstring ty) (to_strings src) d (to_Zs rest)
-  | _ => mkF 0 None [] 0 []
+  | L [ty; src; info] =>
+      mkF (to_optstring ty) (match src with L [l] => Some (to_strings l) | _ => None end)
+          (match info with L [I i; I d; rest; I f] => Some (mkC i d (to_Zs rest) f) | _ => None end)
+  | _ => mkF None None None
   end.
+Definition to_load (x : sx) : load := match x with L [e] => Raises (to_string e) | _ => Loaded end.
+Definition to_how (x : sx) : how :=
+  match x with I 0 => HFromUrl | I 1 => HOds | L [e; s] => HOpen (to_bool e) (to_bool s) | _ => HFromUrl end.
 Definition of_res_cinfo (r : res cinfo) : sx :=
-  match r with Ok c => L [I (c_id c); I (c_dumps c); of_Zs (c_rest c)] | Err e => L [I (-1); I e] end.
+  match r with Ok c => L [I (c_id c); I (c_dumps c); of_Zs (c_rest c); I (c_from c)] | Err e => L [I (-1); I e] end.
 
 Definition to_aval (x : sx) : aval :=
   match x with
   | L [I 0; s] => AStr (to_string s)
   | L [I 1; l] => AStrs (to_strings l)
-  | L [I 2; I d; rest] => AInfo d (to_Zs rest)
+  | L [I 2; I d; rest; hp] => AInfo d (to_Zs rest) (to_bool hp)
   | _ => AOther
   end.
 Definition to_optbool (x : sx) : option bool := match x with L [b] => Some (to_bool b) | _ => None end.
 Definition to_mode (x : sx) : omode :=
   match x with L [s; u; t] => mkMode (to_bool s) (to_optbool u) (to_optZ t) | _ => mkMode false None None end.
 Definition of_opened (o : opened) : list sx :=
-  [I (o_ts o); match o_data o with Some (n, i) => L [I n; I i] | None => L [] end].
+  [I (o_ts o); match o_data o with Some (n, i, f) => L [I n; I i; I f] | None => L [] end].
 Definition of_res_url (r : res (string * string * opened)) : sx :=
   match r with
   | Ok (cb, sn, o) => L (I 0 :: of_string cb :: of_string sn :: of_opened o)
@@ -374,7 +532,11 @@ Definition of_res_opened (r : res opened) : sx :=
    (7 arrays)                       -> aligned chunks
    (8 mode store vals kw_cb url_cb kw_sn url_sn) -> (model spec) of opening from the telstate; mode = (store? (upgrade)? (n_ts)?)
    (9 mode stream (id dumps rest) archived)      -> (model spec) of open_source
-   (10 store vals base cb s)        -> () | (prefixes of the candidate view) *)
+   (10 store vals base cb s)        -> () | (prefixes of the candidate view)
+   (11 prefixes name)               -> () | (model spec) of _relative_view
+   (12 how scheme load mode store vals kw_cb url_cb kw_sn url_sn) -> (model spec) of the entry point `how`
+       how = 0 from_url | 1 open_data_source | (ends_rdb has_scheme) katdal.open;  load = () loaded | (exception class)
+   (13 store prefixes)              -> names of the sensor table (in table order) *)
 Definition wire_18 (x : sx) : sx :=
   match x with
   | L [I 1; st; names; cb; stream] =>
@@ -388,11 +550,12 @@ Definition wire_18 (x : sx) : sx :=
   | L [I 3; st; prefixes; names] =>
       let st := to_store st in let ps := to_strings prefixes in
       L (map (fun n => L [of_optstring (sensor_key ps st n); of_optstring (spec_sensor st ps n);
-                          of_optstring (tbl_get (sensor_table_unranked ps st) n)]) (to_strings names))
+                          of_optstring (tbl_get (sensor_table_unranked ps st) n);
+                          of_optstring (sensor_key_viewtyped ps st n)]) (to_strings names))
   | L [I 4; kw; url; file] => of_optstring (resolve_id (to_optstring kw) (to_optstring url) (to_optstring file))
   | L [I 5; ty] => of_bool (check_stream_type (to_optstring ty))
   | L [I 6; stream; L [I i; I d; rest]; archived] =>
-      let cur := mkC i d (to_Zs rest) in let ar := map to_fstream (to_list archived) in
+      let cur := mkC i d (to_Zs rest) i in let ar := map to_fstream (to_list archived) in
       L [of_res_cinfo (upgrade_flags (to_string stream) cur ar); of_res_cinfo (spec_upgrade (to_string stream) cur ar)]
   | L [I 7; arrays] => L (map of_Zs (align_chunk_info (map to_Zs (to_list arrays))))
   | L [I 8; m; st; vals; kwcb; urlcb; kwsn; urlsn] =>
@@ -400,7 +563,7 @@ Definition wire_18 (x : sx) : sx :=
       L [of_res_url (open_url m st vals (to_optstring kwcb) (to_optstring urlcb) (to_optstring kwsn) (to_optstring urlsn));
          of_res_url (spec_open_url m st vals (to_optstring kwcb) (to_optstring urlcb) (to_optstring kwsn) (to_optstring urlsn))]
   | L [I 9; m; stream; L [I i; I d; rest]; archived] =>
-      let cur := mkC i d (to_Zs rest) in let ar := map to_fstream (to_list archived) in
+      let cur := mkC i d (to_Zs rest) i in let ar := map to_fstream (to_list archived) in
       L [of_res_opened (open_source (to_mode m) (to_string stream) cur ar);
          of_res_opened (spec_open (to_mode m) (to_string stream) cur ar)]
   | L [I 10; st; vals; base; cb; s] =>
@@ -409,5 +572,17 @@ Definition wire_18 (x : sx) : sx :=
       | Some ss => L [L (map of_string (view_capture_stream_on (to_strings base) (to_string cb) ss))]
       | None => L []
       end
+  | L [I 11; ps; name] =>
+      match relative_view (to_strings ps) (to_string name) with
+      | Some v => L [L (map of_string v); L (map of_string (spec_relative_view (to_strings ps) (to_string name)))]
+      | None => L []
+      end
+  | L [I 12; h; scheme; l; m; st; vals; kwcb; urlcb; kwsn; urlsn] =>
+      let st := to_store st in let vals := map to_aval (to_list vals) in let m := to_mode m in
+      L [of_res_url (open_how (to_how h) (to_string scheme) (to_load l) m st vals
+                              (to_optstring kwcb) (to_optstring urlcb) (to_optstring kwsn) (to_optstring urlsn));
+         of_res_url (spec_open_how (to_how h) (to_string scheme) (to_load l) m st vals
+                                   (to_optstring kwcb) (to_optstring urlcb) (to_optstring kwsn) (to_optstring urlsn))]
+  | L [I 13; st; prefixes] => L (map of_string (sensor_names (to_strings prefixes) (to_store st)))
   | _ => sx_err
   end.
